@@ -92,8 +92,9 @@ def seq(items):
 
 
 def algo_pairs(pairs):
-    """digests / signatures: sequence of length-prefixed (uint32 algorithm id, length-prefixed bytes)"""
-    return seq(u32(a) + lp(v) for a, v in pairs)
+    """digests / signatures: sequence of length-prefixed (uint32 algorithm id, length-prefixed bytes) elements.  A pair may carry
+    a third item: slack bytes stored after the fields but inside the element's own length prefix (readers must skip them)."""
+    return seq(u32(p[0]) + lp(p[1]) + (bytes(p[2]) if len(p) > 2 else b"") for p in pairs)
 
 
 def attrs_blob(attrs):
@@ -102,11 +103,14 @@ def attrs_blob(attrs):
 
 
 def v2_signer(s):
+    """"digests_wire" / "sigs_wire" (pairs with slack), when present, are what is written; "digests" / "sigs" is what they mean"""
+    s = dict(s, digests=s.get("digests_wire", s["digests"]), sigs=s.get("sigs_wire", s["sigs"]))
     signed = algo_pairs(s["digests"]) + seq(s["certs"]) + lp(s["attrs"])
     return lp(signed) + algo_pairs(s["sigs"]) + lp(s["pubkey"])
 
 
 def v3_signer(s):
+    s = dict(s, digests=s.get("digests_wire", s["digests"]), sigs=s.get("sigs_wire", s["sigs"]))
     signed = algo_pairs(s["digests"]) + seq(s["certs"]) + u32(s["min"]) + u32(s["max"]) + lp(s["attrs"])
     return lp(signed) + u32(s["smin"]) + u32(s["smax"]) + algo_pairs(s["sigs"]) + lp(s["pubkey"])
 
@@ -296,6 +300,29 @@ def signer_info(sf, keyname, alg, signed_attrs, refer=None, sign_over=None, attr
     return cms.SignerInfo(si)
 
 
+def signer_info_ber_attrs(sf, keyname, alg, form, sign_over):
+    """SignerInfo (raw bytes) whose signedAttrs field is stored with a legal but NON-minimal BER length.
+    form       "81": A0 81 nn ...   "8200": A0 82 00 nn ...   (nn = content length < 128)
+    sign_over  "der":    signature over the canonical DER encoding 31 nn ... (what RFC 5652 5.4 prescribes)
+               "stored": signature over the stored encoding with only the tag octet replaced, 31 81 nn ... / 31 82 00 nn ...
+                         (what Android's V1SchemeVerifier and androguard hash: they do not re-encode)"""
+    from asn1crypto import cms
+    si = signer_info(sf, keyname, alg, True)
+    canon = si["signed_attrs"].dump()                      # A0 nn contents
+    assert canon[0] == 0xA0 and canon[1] < 0x80 and len(canon) == 2 + canon[1]
+    lenform = {"81": bytes([0x81, canon[1]]), "8200": bytes([0x82, 0x00, canon[1]])}[form]
+    stored = b"\xa0" + lenform + canon[2:]
+    if sign_over == "stored":
+        d = {k: si[k] for k in ("version", "sid", "digest_algorithm", "signed_attrs", "signature_algorithm")}
+        d["signature"] = raw_sign(keyname, alg, b"\x31" + stored[1:])
+        si = cms.SignerInfo(d)
+    raw = si.dump()
+    hl = 2 if raw[1] < 0x80 else 2 + (raw[1] & 0x7F)
+    body = raw[hl:]
+    assert body.count(canon) == 1
+    return der(0x30, body.replace(canon, stored))
+
+
 def der(tag, content):
     """One definite-length DER TLV."""
     n = len(content)
@@ -316,7 +343,7 @@ def pkcs7(signer_infos, bag, algs):
             + der(0x31, b"".join(algos.DigestAlgorithm({"algorithm": a}).dump() for a in algs))
             + cms.EncapsulatedContentInfo({"content_type": "data"}).dump()
             + der(0xA0, b"".join(cert_der(n) for n in bag))
-            + der(0x31, b"".join(si.dump() for si in signer_infos)))
+            + der(0x31, b"".join(si if isinstance(si, bytes) else si.dump() for si in signer_infos)))
     return der(0x30, cms.ContentType("signed_data").dump() + der(0xA0, der(0x30, body)))
 
 
